@@ -37,6 +37,7 @@ type scenario struct {
 	Key       string `json:"key"`    // API key / session token handed out
 	FaultReq  int    `json:"fault_req"`
 	FaultKind string `json:"fault_kind"` // status | malformed | eof | nosuccess | jobfail | stall
+	Marker2   *bool  `json:"marker2"`    // marker in the display-name of vsys2 (default: as vsys1)
 	JobPend   int    `json:"job_pend"`   // the first job_pend polls of the commit job answer PEND
 	GateReq   int    `json:"gate_req"`
 	GateFile  string `json:"gate_file"`
@@ -194,6 +195,13 @@ func panos(w http.ResponseWriter, q *http.Request) {
 		if sc.Marker {
 			name = "FW7-managed-by-Netspoc"
 		}
+		name2 := name
+		if sc.Marker2 != nil {
+			name2 = "FW8"
+			if *sc.Marker2 {
+				name2 = "FW8-managed-by-Netspoc"
+			}
+		}
 		fmt.Fprintf(w, `<response status = 'success'>
  <result>
   <devices>
@@ -213,7 +221,7 @@ func panos(w http.ResponseWriter, q *http.Request) {
   </devices>
  </result>
 </response>
-`, sc.Hostname, name, sc.Config, name, sc.Config)
+`, sc.Hostname, name, sc.Config, name2, sc.Config)
 	case "change":
 		changes++
 		uncommit++
